@@ -32,8 +32,8 @@ g) time values before 1970: (1) every zone that holds values of a time field get
    add_zone_range is called for a payload field (the pruner takes its candidates from the calendar only, so a zone without an entry is ruled out for every predicate); (2) TemporalPruner compares the
    zone temporal index (contains_ts, min_ts / max_ts) with the literal as given, not with the literal clamped to 0 (`at < -5` must not become `at < 0`); only calendar look-ups may use the clamped value.
 """
-FLOOR = 14
-REQUIRED = ["C08.a1", "C08.a2", "C08.a3", "C08.a4", "C08.b", "C08.c1", "C08.c2", "C08.c3", "C08.c4", "C08.c5", "C08.d", "C08.e", "C08.f", "C08.g"]
+FLOOR = 15
+REQUIRED = ["C08.a1", "C08.a2", "C08.a3", "C08.a4", "C08.b", "C08.c1", "C08.c2", "C08.c3", "C08.c4", "C08.c5", "C08.d", "C08.e", "C08.f", "C08.g", "C08.h"]
 
 
 def family(F, b):
@@ -597,3 +597,88 @@ def run(ctx):
                             bad.append(("zone-range-compared-with-clamped-literal", "apply_temporal_only compares a zone's min_ts / max_ts with the literal clamped to 0 (%s)" % sp(p, i), None))
         return bad
     ctx.run("C08.g", "K8 GUARD + K7", "TemporalIndexBuilder::build_for_zone_plans / TemporalPruner::apply_temporal_only", "a value before 1970 neither hides its zone nor changes the predicate", g_)
+
+    def h_(inst):
+        """The calendar answers `which zones may hold a value in this hour / day bucket`. A zone must therefore be entered for the
+        bucket of EVERY value it holds: either as one range from its minimum to its maximum, or value by value. Value by value
+        means: a loop over the very list of values the minimum and maximum were taken from, no iteration skipped, and the bucket
+        position computed from the element itself (clamp / cast only - a coarser position such as the day start is found only
+        while no other zone registered the hour)."""
+        bad = []
+        b = F.fn("TemporalIndexBuilder::build_for_zone_plans")
+        calls_ = [c for c in b.calls if not c.cleanup and c.nname.endswith("TemporalCalendarIndex::add_zone_range")]
+        if len(calls_) < 2:
+            raise AnchorMissing("add_zone_range calls in build_for_zone_plans (%d, confirmed 3)" % len(calls_))
+        mins = [c for c in b.calls if not c.cleanup and c.nname.endswith("Iterator::min")]
+        maxs = [c for c in b.calls if not c.cleanup and c.nname.endswith("Iterator::max")]
+
+        def flow(c):
+            return {l for l, _ in b.flow_forward(c.dest)}
+
+        def vals_of(c):
+            """locals of the collection whose iterator feeds a min()/max() call"""
+            out = set()
+            for l in b.origins(c.args[0], transparent=NEXT_TRANSPARENT):
+                if l[0] == "call":
+                    cc = b.call_at(l[2])
+                    if cc.args:
+                        out |= b._origin_locals(cc.args[0])
+            return out | b._origin_locals(c.args[0])
+        hdrs = for_headers(b)
+        n = 0
+        for c in calls_:
+            lo, hi = c.args[2], c.args[3]
+            wl, wh = wide_all(b, lo) | b._origin_locals(lo), wide_all(b, hi) | b._origin_locals(hi)
+            # the server-clock calendar of the core timestamp is fed from the events directly: same shape rules apply
+            # lower end from the minimum only, upper end from the maximum only (a point entry built from either end is not a range)
+            rng = [(mn, mx) for mn in mins for mx in maxs if (flow(mn) & wl) and (flow(mx) & wh) and not (flow(mx) & wl) and not (flow(mn) & wh) and (vals_of(mn) & vals_of(mx))]
+            if rng:
+                n += 1
+                inst.sites.append("%s: whole range [min, max] of the zone's values" % sp(b, c.bb))
+                continue
+            # value by value
+            ok = False
+            why = "neither the [min, max] range of the zone's values nor one entry per value"
+            for h in hdrs:
+                try:
+                    some = variant_edge(b, h, "Some")
+                except AnchorMissing:
+                    continue
+                body_ = set(b.reach(0, src_edges=some, cut_blocks=[h.bb]))
+                if c.bb not in body_ or not b.can_reach(c.bb, h.bb):
+                    continue
+                elem = {l for l, _ in b.flow_forward(h.dest)}
+                if not (elem & wl and elem & wh):
+                    continue
+                coll = set()
+                for l in b.origins(h.args[0], transparent=NEXT_TRANSPARENT):
+                    if l[0] == "call":
+                        cc = b.call_at(l[2])
+                        if cc.args:
+                            coll |= b._origin_locals(cc.args[0])
+                coll |= b._origin_locals(h.args[0])
+                src_ok = any(vals_of(m) & coll for m in mins + maxs)
+                if not src_ok:
+                    why = "the per-value loop does not run over the list of values the zone's minimum / maximum are taken from"
+                    continue
+                if skipped_iteration(b, h, [c.bb]):
+                    why = "an iteration of the per-value loop can skip add_zone_range"
+                    continue
+                # bucket position = the element itself: no arithmetic between the loop element and the argument
+                coarse = []
+                for l_ in (wl | wh):
+                    for (bb_, j_, dpl, rv) in b.defs().get(l_, []):
+                        if rv.get("r") == "bin" and rv.get("op") in ("Div", "Rem", "Mul", "Shr", "Shl", "BitAnd", "Sub", "SubWithOverflow", "MulWithOverflow") and bb_ in body_:
+                            coarse.append(rv.get("op"))
+                if coarse:
+                    why = "the bucket position is computed from the value with %s: a coarser position than the value's own bucket" % sorted(set(coarse))
+                    continue
+                ok = True
+                n += 1
+                inst.sites.append("%s: one entry per value (loop @ %s)" % (sp(b, c.bb), sp(b, h.bb)))
+            if not ok:
+                bad.append(("calendar-misses-values", "build_for_zone_plans enters a zone into the calendar with %s: an equality probe on a value whose bucket is not entered prunes the zone" % why, sp(b, c.bb)))
+        if n + len(bad) < 2:
+            raise AnchorMissing("classified add_zone_range calls (%d)" % n)
+        return bad
+    ctx.run("C08.h", "K9 LOOP + K7", "TemporalIndexBuilder::build_for_zone_plans", "a zone is entered into the calendar for the bucket of every value it holds", h_)
